@@ -36,6 +36,7 @@ type Op struct {
 	Mf bool   `json:"mf,omitempty"`
 	Fl []int  `json:"fl,omitempty"`
 	Rm bool   `json:"rm,omitempty"` // baddigest: through Rmdir instead of Lookup
+	Cx string `json:"cx,omitempty"` // lookup diff|blob|info: the request is interrupted "before", "mid" (while a blob request is in flight) or "after"
 }
 
 type Case struct {
@@ -118,6 +119,12 @@ func errClass(s fuse.Status) string {
 }
 
 // rawLookup = one LOOKUP request; returns the node id of the child.
+// rawLookupC = a LOOKUP request that the kernel interrupts by closing c.
+func (m *machine) rawLookupC(c <-chan struct{}, parent uint64, name string) fuse.Status {
+	var out fuse.EntryOut
+	return m.raw.Lookup(c, &fuse.InHeader{NodeId: parent}, name, &out)
+}
+
 func (m *machine) rawLookup(parent uint64, name string) (uint64, fuse.Status) {
 	var out fuse.EntryOut
 	st := m.raw.Lookup(nil, &fuse.InHeader{NodeId: parent}, name, &out)
@@ -279,7 +286,29 @@ func (m *machine) run(ops []Op) []Obs {
 			if name == "other" {
 				name = "lower"
 			}
-			_, st = m.rawLookup(lid, name)
+			switch o.Cx {
+			case "before":
+				c := make(chan struct{})
+				close(c)
+				st = m.rawLookupC(c, lid, name)
+				o.Mf = true // an interrupted request cannot fetch the manifest: same as a manifest fault
+			case "mid":
+				c := make(chan struct{})
+				reached, open := m.g.armGate()
+				done := make(chan fuse.Status, 1)
+				go func() { done <- m.rawLookupC(c, lid, name) }()
+				select {
+				case <-reached:
+					m.stats["result.cancel.midfetch"]++
+					close(c)
+					open()
+					st = <-done
+				case st = <-done:
+					open()
+				}
+			default:
+				_, st = m.rawLookup(lid, name)
+			}
 			m.quiesce()
 			m.noteInjected(o.R)
 			m.g.setFaults(false, nil)
@@ -482,7 +511,7 @@ func coqOp(o Op) string {
 	switch o.Op {
 	case "lookup":
 		k := map[string]string{"diff": "KDiff", "blob": "KBlob", "info": "KInfo", "use": "KUse", "other": "KOther"}[o.K]
-		return fmt.Sprintf("FLookup %d %d %s %s %s", o.R, o.T, k, hx.CoqBool(o.Mf), hx.CoqNatList(o.Fl))
+		return fmt.Sprintf("FLookup %d %d %s %s %s", o.R, o.T, k, hx.CoqBool(o.Mf || o.Cx == "before"), hx.CoqNatList(o.Fl))
 	case "use":
 		return fmt.Sprintf("FUse %d %d", o.R, o.T)
 	case "createother":
@@ -603,7 +632,14 @@ func genCase(r *hx.Rng) Case {
 			t := pickToc(ref)
 			k := []string{"diff", "blob"}[r.Intn(2)]
 			looked = append(looked, [2]int{ref, t})
-			c.Ops = append(c.Ops, Op{Op: "lookup", K: k, R: ref, T: t, Mf: r.Chance(1, 10), Fl: faults(ref)})
+			lo := Op{Op: "lookup", K: k, R: ref, T: t, Mf: r.Chance(1, 10), Fl: faults(ref)}
+			if r.Chance(1, 5) {
+				lo.Cx = []string{"before", "mid", "mid", "after"}[r.Intn(4)]
+			}
+			c.Ops = append(c.Ops, lo)
+			if lo.Cx != "" && r.Chance(2, 3) { // a fresh client asks again
+				c.Ops = append(c.Ops, Op{Op: "lookup", K: k, R: ref, T: t})
+			}
 			if r.Chance(1, 3) { // the real client stats diff, info, blob in a row
 				c.Ops = append(c.Ops, Op{Op: "lookup", K: "info", R: ref, T: t}, Op{Op: "lookup", K: "blob", R: ref, T: t})
 			}
@@ -663,6 +699,11 @@ func corpus() []Case {
 		{World: std, Ops: []Op{lk("diff", 0, 0), {Op: "alias", R: 0, T: 1}, {Op: "use", R: 0, T: 0}, {Op: "rmdir", R: 0, T: 0}, lk("diff", 0, 1)}},
 		// in-use layer survives TTL expiry + sibling release + re-resolution
 		{World: std, Ops: []Op{lk("diff", 0, 0), {Op: "use", R: 0, T: 0}, lk("diff", 0, 1), {Op: "use", R: 0, T: 1}, {Op: "expire", R: 0, L: 0}, {Op: "expire", R: 0, L: 1}, {Op: "rmdir", R: 0, T: 0}, lk("diff", 0, 0), lk("blob", 0, 1), {Op: "rmdir", R: 0, T: 1}}},
+		// annotated manifests (correct / another layer's / stale / malformed / none)
+		{World: World{Ltoc: []int{0, 1, 2, 3, 4, -1, -1}, Images: [][]int{{0, 1, 2, 5}}, Ann: [][]int{{1, 50, 900, 0}}},
+			Ops: []Op{lk("diff", 0, 0), lk("info", 0, 0), lk("blob", 0, 1), lk("diff", 0, 2), {Op: "use", R: 0, T: 1}, {Op: "rmdir", R: 0, T: 1}, lk("diff", 0, 1), lk("diff", 0, 0)}},
+		// interrupted requests at every stage, then a fresh request
+		{World: std, Ops: []Op{{Op: "lookup", K: "diff", R: 0, T: 0, Cx: "mid"}, lk("diff", 0, 0), lk("blob", 0, 1), {Op: "lookup", K: "diff", R: 1, T: 1, Cx: "before"}, {Op: "lookup", K: "diff", R: 1, T: 1, Cx: "mid"}, lk("diff", 1, 1), {Op: "lookup", K: "blob", R: 1, T: 2, Cx: "after"}, lk("blob", 1, 2)}},
 		// registry error memoised (known finding), cleared by the last rmdir
 		{World: std, Ops: []Op{{Op: "lookup", K: "diff", R: 1, T: 1, Fl: []int{1}}, lk("diff", 1, 1), lk("diff", 1, 2), {Op: "use", R: 1, T: 2}, {Op: "rmdir", R: 1, T: 2}, lk("diff", 1, 1)}},
 	}
